@@ -602,6 +602,9 @@ static void run_case(FILE *out) {
         if (rc < 0) { fprintf(out, "<context_start rc=%d>\n", rc); return; }
         for (int d = 0; d < C.ndata; d++) { g_tile[d] = PARSEC_DTD_TILE_OF_KEY(g_A, g_A->data_key(g_A, d, 0)); g_data[d] = g_tile[d]->data_copy->original; }
     } else {
+        /* what the communication engine sets when it starts with an MPI that is not GPU-aware (the DTD modes get it
+           from parsec_context_start): the epilog then reports the host copy as the output of a pushed-out flow */
+        parsec_mpi_allow_gpu_memory_communications = 0;
         for (int d = 0; d < C.ndata; d++) {
             g_data[d] = g_A->data_of_key(g_A, g_A->data_key(g_A, d, 0));
             cur_copy[d] = g_data[d]->device_copies[0]; cur_dev[d] = 0;
